@@ -345,5 +345,5 @@ def strategy(draw):
 
 PHASES = [
     Phase("labelled", run_case, strategy=strategy,
-          examples={"quick": 2400, "thorough": 24000}),
+          examples={"quick": 2400, "thorough": 100000}),
 ]
